@@ -37,12 +37,31 @@ def literals_of_test(test, label):
     return out
 
 
+def _literal_bases(expr):
+    """names / attribute texts whose redefinition invalidates a literal: `state.is_error` -> {'state', 'state.is_error'}"""
+    out = set()
+    for n in ast.walk(expr):
+        if isinstance(n, ast.Name):
+            out.add(n.id)
+        elif isinstance(n, ast.Attribute):
+            out.add(U(n))
+    out.discard("self")
+    out.discard("len")
+    out.discard("isinstance")
+    out.discard("type")
+    return out
+
+
 def dominating_literals(cfg, nid):
-    """[(expr_ast, text, polarity, test_node_id)] for every If/While test edge that every path
-    entry -> nid must take."""
+    """[(expr_ast, text, polarity, test_node_id)] for every If/While test edge that every path entry -> nid must
+    take, *and whose operands are not redefined between the test and nid* (a literal about `state` established
+    before `state = f(...)` says nothing about the new value)."""
     out = []
     if not cfg.is_reachable(nid):
         return out
+    cache = getattr(cfg, "_def_cache", None)
+    if cache is None:
+        cache = cfg._def_cache = {}
     for n in cfg.nodes:
         if n.kind != "test" or n.id == nid:
             continue
@@ -50,8 +69,26 @@ def dominating_literals(cfg, nid):
             if not any(lab == label for _, lab in cfg.succ[n.id]):
                 continue
             if cfg.edge_dominates(n.id, label, nid):
+                after = None
                 for e, txt, pol in literals_of_test(n.ast, label):
-                    out.append((e, txt, pol, n.id))
+                    stale = False
+                    for b in _literal_bases(e):
+                        if b not in cache:
+                            cache[b] = cfg.defs_of(b)
+                        for d in cache[b]:
+                            if d == nid:
+                                continue
+                            if d == n.id:
+                                continue
+                            if after is None:
+                                after = cfg.succ_reach(n.id, avoid=[n.id], avoid_edges=[(n.id, "F" if label == "T" else "T")])
+                            if d in after and nid in cfg.succ_reach(d, avoid=[n.id]):
+                                stale = True
+                                break
+                        if stale:
+                            break
+                    if not stale:
+                        out.append((e, txt, pol, n.id))
     return out
 
 
